@@ -134,9 +134,20 @@ func (u *provider) Headroom() int {
 }
 
 func (u *provider) SetDispatchPorts(start, end, redirect uint16) {
+	u.mu.Lock()
+	defer u.mu.Unlock()
 	u.dispatchStart = start
 	u.dispatchEnd = end
 	u.dispatchRedirect = redirect
+	// The internal link keeps its own copy: if it exists already (the port range is configured
+	// last by the control code), it must be updated too.
+	if u.internalConnection != nil {
+		if il, ok := u.internalConnection.link.(*internalLink); ok {
+			il.dispatchStart = start
+			il.dispatchEnd = end
+			il.dispatchRedirect = redirect
+		}
+	}
 }
 
 // AddSvc adds the address for the given service.
@@ -971,12 +982,13 @@ func (l *internalLink) Resolve(p *router.Packet, dst addr.Host, port uint16) err
 		if dstAddr.IsUnspecified() {
 			return router.ErrUnsupportedUnspecifiedAddress
 		}
+		// if port is outside the configured port range we send to the fixed port. (Service
+		// addresses resolve to the port of the registered instance, whatever the range.)
+		if port < l.dispatchStart || port > l.dispatchEnd {
+			port = l.dispatchRedirect
+		}
 	default:
 		panic(fmt.Sprintf("unexpected address type returned from DstAddr: %s", dst.Type()))
-	}
-	// if port is outside the configured port range we send to the fixed port.
-	if port < l.dispatchStart && port > l.dispatchEnd {
-		port = l.dispatchRedirect
 	}
 
 	// Packets that get here must have come from an external or a sibling link; neither of which
